@@ -285,7 +285,7 @@ def connect_phase_requests(ck: Check) -> int:
            "disc": (pb.DisconnectRequest, pb.DisconnectResponse)}
     n = 0
     for login in (False, True):
-        stages = ["before-hello"] + (["between-hello-and-login"] if login else []) + ["after"]
+        stages = ["before-hello"] + (["between-hello-and-login"] if login else []) + ["after", "while-disconnecting"]
         for stage in stages:
             for kind, (req, resp) in REQ.items():
                 for together in (False, True):      # the request alone in its read, or in the same read as the next response
@@ -301,11 +301,15 @@ def connect_phase_requests(ck: Check) -> int:
                     o = simnet.spawn(loop, client.connect(on_stop=on_stop, login=login), "connect")
                     loop.run_idle()
                     script = [simnet.hello_response(1, 10, "")] + ([simnet.connect_response(False)] if login else [])
-                    pos = {"before-hello": 0, "between-hello-and-login": 1, "after": len(script)}[stage]
+                    pos = {"before-hello": 0, "between-hello-and-login": 1, "after": len(script), "while-disconnecting": len(script)}[stage]
                     script.insert(pos, req())
                     before = len(net.written())
                     i = 0
                     while i < len(script):
+                        if stage == "while-disconnecting" and isinstance(script[i], req):
+                            # a local disconnect() is waiting for the device's DisconnectResponse when the request arrives
+                            dtask = simnet.spawn(loop, client.disconnect(), "disconnect")
+                            loop.run_idle()
                         chunk = [script[i]]
                         if together and isinstance(script[i], req) and i + 1 < len(script):
                             chunk.append(script[i + 1])
@@ -317,6 +321,9 @@ def connect_phase_requests(ck: Check) -> int:
                     n += 1
                     rep = {"login": login, "stage": stage, "request": kind, "same_read_as_next_response": together,
                            "written_types": got, "connect_outcome": o.cls()}
+                    if stage == "while-disconnecting":
+                        net.send(pb.DisconnectResponse())
+                        loop.run_idle()
                     if got.count(want_ty) != 1:
                         ck.violation(f"c12:request-during-connect:{kind}:{stage}",
                                      f"the device sent {req.__name__} {stage.replace('-', ' ')} (login={login}): {got.count(want_ty)} "
@@ -325,7 +332,7 @@ def connect_phase_requests(ck: Check) -> int:
                     if kind == "disc":
                         conn = client._connection
                         closed = conn is None or conn.is_connected is False
-                        if not closed or (stage == "after" and stops != [True]):
+                        if not closed or (stage in ("after", "while-disconnecting") and stops != [True]):
                             ck.violation(f"c12:disconnect-request-during-connect:{stage}",
                                          f"DisconnectRequest {stage} (login={login}): closed={closed}, stop callback {stops}", rep)
                     net.close()
